@@ -79,7 +79,7 @@ mutual
 def InFragmentP (env : RequestEnv) : Expr → Bool
   | .ite c t e => InFragmentM .permissive env (.ite c t e) ||
       (InFragmentP env c && InFragmentP env t && InFragmentP env e && ndBase t)
-  | .unaryApp op a => InFragmentM .permissive env (.unaryApp op a) || (op == .isEmpty && InFragmentP env a)
+  | .unaryApp op a => InFragmentM .permissive env (.unaryApp op a) || ((op == .isEmpty || op == .not) && InFragmentP env a)
   | .binaryApp op a b => InFragmentM .permissive env (.binaryApp op a b) ||
       ((op == .eq || op == .contains || op == .containsAll || op == .containsAny) && InFragmentP env a && InFragmentP env b)
   | .set es => InFragmentM .permissive env (.set es) || (InFragmentPList env es && es.all ndBase)
@@ -87,8 +87,8 @@ def InFragmentP (env : RequestEnv) : Expr → Bool
   | .var v => InFragmentM .permissive env (.var v)
   | .slot x => InFragmentM .permissive env (.slot x)
   | .unknown n t => InFragmentM .permissive env (.unknown n t)
-  | .and a b => InFragmentM .permissive env (.and a b)
-  | .or a b => InFragmentM .permissive env (.or a b)
+  | .and a b => InFragmentM .permissive env (.and a b) || (InFragmentP env a && InFragmentP env b)
+  | .or a b => InFragmentM .permissive env (.or a b) || (InFragmentP env a && InFragmentP env b)
   | .call f args => InFragmentM .permissive env (.call f args)
   | .getAttr e a => InFragmentM .permissive env (.getAttr e a)
   | .hasAttr e a => InFragmentM .permissive env (.hasAttr e a)
@@ -99,6 +99,14 @@ def InFragmentPList (env : RequestEnv) : List Expr → Bool
   | [] => true
   | e :: es => InFragmentP env e && InFragmentPList env es
 end
+
+theorem andType_ne_never {τa τb : CedarType} (ha : τa ≠ .never) (hb : τb ≠ .never) : andType τa τb ≠ .never := by
+  unfold andType
+  split <;> first | assumption | (intro h; cases h)
+
+theorem orType_ne_never {τa τb : CedarType} (ha : τa ≠ .never) (hb : τb ≠ .never) : orType τa τb ≠ .never := by
+  unfold orType
+  split <;> first | assumption | (intro h; cases h)
 
 theorem plub_ne_never {a b c : CedarType} (h : lub .permissive a b = some c) (ha : a ≠ .never) (hb : b ≠ .never) :
     c ≠ .never := by
@@ -180,14 +188,112 @@ theorem soundP {s : Schema} {env : RequestEnv} {w : World} (hWF : SchemaWF2 s) (
   | .var v, hf, caps, τ, c', h => soundP_base hWF henv _ (by simpa only [InFragmentP] using hf) caps τ c' h
   | .slot x, hf, caps, τ, c', h => soundP_base hWF henv _ (by simpa only [InFragmentP] using hf) caps τ c' h
   | .unknown n t, hf, caps, τ, c', h => soundP_base hWF henv _ (by simpa only [InFragmentP] using hf) caps τ c' h
-  | .and a b, hf, caps, τ, c', h => soundP_base hWF henv _ (by simpa only [InFragmentP] using hf) caps τ c' h
-  | .or a b, hf, caps, τ, c', h => soundP_base hWF henv _ (by simpa only [InFragmentP] using hf) caps τ c' h
   | .call f args, hf, caps, τ, c', h => soundP_base hWF henv _ (by simpa only [InFragmentP] using hf) caps τ c' h
   | .getAttr e a, hf, caps, τ, c', h => soundP_base hWF henv _ (by simpa only [InFragmentP] using hf) caps τ c' h
   | .hasAttr e a, hf, caps, τ, c', h => soundP_base hWF henv _ (by simpa only [InFragmentP] using hf) caps τ c' h
   | .like e p, hf, caps, τ, c', h => soundP_base hWF henv _ (by simpa only [InFragmentP] using hf) caps τ c' h
   | .is e t, hf, caps, τ, c', h => soundP_base hWF henv _ (by simpa only [InFragmentP] using hf) caps τ c' h
   | .record kvs, hf, caps, τ, c', h => soundP_base hWF henv _ (by simpa only [InFragmentP] using hf) caps τ c' h
+  | .and a b, hf, caps, τ, c', h => by
+    simp only [InFragmentP, Bool.or_eq_true, Bool.and_eq_true] at hf
+    rcases hf with hf | ⟨hfa, hfb⟩
+    · exact soundP_base hWF henv _ hf caps τ c' h
+    have iha := soundP hWF henv a hfa
+    have ihb := soundP hWF henv b hfb
+    simp only [typeOf] at h
+    cases hA : expectOneOf (typeOf .permissive s env a caps) [boolT] with
+    | error err => rw [hA] at h; cases h
+    | ok pa =>
+      obtain ⟨τa, ca⟩ := pa
+      rw [hA] at h; simp only at h
+      obtain ⟨hta, hsa⟩ := expectOneOf_ok hA
+      have hba := subtype_bool hsa
+      obtain ⟨hma, ga⟩ := iha caps τa ca hta
+      split at h
+      · rename_i hfalse
+        simp only [ok, Except.ok.injEq, Prod.mk.injEq] at h; obtain ⟨rfl, rfl⟩ := h
+        have := isFalse_eq hfalse; subst this
+        refine ⟨(by intro h; cases h), fun hs hc => ⟨?_, fun h => by cases h⟩⟩
+        obtain ⟨sa, _⟩ := ga hs hc
+        rcases sa.bool_cases hba with ⟨err, he, hp⟩ | ⟨x, hx, hix, _⟩
+        · exact TySound.of_err (by simp [evaluate, he]) hp
+        · have : x = false := by simpa [boolInst] using hix
+          subst this
+          exact TySound.of_bool (b := false) (by simp [evaluate, hx, Value.asBool]) (by simp [boolInst]) (fun h => by cases h)
+      · cases hB : expectOneOf (typeOf .permissive s env b (caps.union ca)) [boolT] with
+        | error err => rw [hB] at h; cases h
+        | ok pb =>
+          obtain ⟨τb, cb⟩ := pb
+          rw [hB] at h; simp only [Except.ok.injEq, Prod.mk.injEq] at h; obtain ⟨rfl, rfl⟩ := h
+          obtain ⟨htb, hsb⟩ := expectOneOf_ok hB
+          have hbb := subtype_bool hsb
+          obtain ⟨hmb, gb⟩ := ihb (caps.union ca) τb cb htb
+          refine ⟨andType_ne_never hma hmb, fun hs hc => ?_⟩
+          obtain ⟨sa, sa2⟩ := ga hs hc
+          have ihb' := fun hca => gb hs (capsHold_union.mpr ⟨hc, hca⟩)
+          refine ⟨and_sound sa hba (fun hca => (ihb' hca).1) hbb (andType_inst hba hbb) (fun h1 h2 => andCaps_hold h1 h2),
+            fun htt => ?_⟩
+          obtain ⟨rfl, rfl⟩ := andType_tt htt hba hbb
+          have hca := sa2 rfl
+          exact andCaps_hold hca ((ihb' hca).2 rfl)
+  | .or a b, hf, caps, τ, c', h => by
+    simp only [InFragmentP, Bool.or_eq_true, Bool.and_eq_true] at hf
+    rcases hf with hf | ⟨hfa, hfb⟩
+    · exact soundP_base hWF henv _ hf caps τ c' h
+    have iha := soundP hWF henv a hfa
+    have ihb := soundP hWF henv b hfb
+    simp only [typeOf] at h
+    cases hA : expectOneOf (typeOf .permissive s env a caps) [boolT] with
+    | error err => rw [hA] at h; cases h
+    | ok pa =>
+      obtain ⟨τa, ca⟩ := pa
+      rw [hA] at h; simp only at h
+      obtain ⟨hta, hsa⟩ := expectOneOf_ok hA
+      have hba := subtype_bool hsa
+      obtain ⟨hma, ga⟩ := iha caps τa ca hta
+      split at h
+      · rename_i htrue
+        simp only [Except.ok.injEq, Prod.mk.injEq] at h; obtain ⟨rfl, rfl⟩ := h
+        have := isTrue_eq htrue; subst this
+        refine ⟨(by intro h; cases h), fun hs hc => ?_⟩
+        obtain ⟨sa, sa2⟩ := ga hs hc
+        refine ⟨?_, fun _ => sa2 rfl⟩
+        rcases sa.bool_cases hba with ⟨err, he, hp⟩ | ⟨x, hx, hix, hcx⟩
+        · exact TySound.of_err (by simp [evaluate, he]) hp
+        · have : x = true := by simpa [boolInst] using hix
+          subst this
+          exact TySound.of_bool (b := true) (by simp [evaluate, hx, Value.asBool]) (by simp [boolInst]) (fun _ => hcx rfl)
+      · cases hB : expectOneOf (typeOf .permissive s env b caps) [boolT] with
+        | error err => rw [hB] at h; cases h
+        | ok pb =>
+          obtain ⟨τb, cb⟩ := pb
+          rw [hB] at h; simp only [Except.ok.injEq, Prod.mk.injEq] at h; obtain ⟨rfl, rfl⟩ := h
+          obtain ⟨htb, hsb⟩ := expectOneOf_ok hB
+          have hbb := subtype_bool hsb
+          obtain ⟨hmb, gb⟩ := ihb caps τb cb htb
+          refine ⟨orType_ne_never hma hmb, fun hs hc => ?_⟩
+          obtain ⟨sa, sa2⟩ := ga hs hc
+          obtain ⟨sb, sb2⟩ := gb hs hc
+          have hL : boolInst true τa = true → CapsHold w ca → CapsHold w (orCaps τa τb ca cb) := by
+            intro hi hca
+            unfold orCaps
+            split
+            · exact sb2 rfl
+            · exact hca
+            · simp [boolInst] at hi
+            · exact capsHold_inter_right hca
+          have hR : boolInst true τb = true → CapsHold w cb → CapsHold w (orCaps τa τb ca cb) := by
+            intro hi hcb
+            unfold orCaps
+            split
+            · exact hcb
+            · simp [boolInst] at hi
+            · exact hcb
+            · exact capsHold_inter_left hcb
+          refine ⟨or_sound sa hba sb hbb (orType_inst hba hbb) hL hR, fun htt => ?_⟩
+          rcases orType_tt htt hba hbb with rfl | ⟨rfl, rfl⟩
+          · exact hR (by simp [boolInst]) (sb2 rfl)
+          · exact hL (by simp [boolInst]) (sa2 rfl)
   | .ite c t e, hf, caps, τ, c', h => by
     simp only [InFragmentP, Bool.or_eq_true, Bool.and_eq_true] at hf
     rcases hf with hf | ⟨⟨⟨hfc, hft⟩, hfe⟩, hndt⟩
@@ -278,7 +384,23 @@ theorem soundP {s : Schema} {env : RequestEnv} {w : World} (hWF : SchemaWF2 s) (
         simp only [ok, Except.ok.injEq, Prod.mk.injEq] at h; obtain ⟨rfl, rfl⟩ := h
         obtain ⟨hta, hsa⟩ := expectOneOf_ok hA
         exact ⟨(by intro h; cases h), fun hs hc => isEmpty_good ((iha caps τa ca hta).2 hs hc).1 (shape_set hsa)⟩
-    | not => exact absurd hop (by decide)
+    | not =>
+      simp only [typeOf] at h
+      cases hA : expectOneOf (typeOf .permissive s env a caps) [boolT] with
+      | error err => rw [hA] at h; cases h
+      | ok pa =>
+        obtain ⟨τa, ca⟩ := pa
+        rw [hA] at h
+        obtain ⟨hta, hsa⟩ := expectOneOf_ok hA
+        have hba := subtype_bool hsa
+        obtain ⟨_, ga⟩ := iha caps τa ca hta
+        rcases hba with rfl | ⟨bt, rfl⟩
+        · simp only [ok, Except.ok.injEq, Prod.mk.injEq] at h; obtain ⟨rfl, rfl⟩ := h
+          exact ⟨(by intro h; cases h), fun hs hc => ⟨not_sound (ga hs hc).1 (Or.inl rfl) (by intro x hx; simp [boolInst] at hx), fun h => by cases h⟩⟩
+        · cases bt <;> simp only [ok, Except.ok.injEq, Prod.mk.injEq] at h <;> obtain ⟨rfl, rfl⟩ := h
+          · exact ⟨(by intro h; cases h), fun hs hc => ⟨not_sound (ga hs hc).1 (Or.inr ⟨_, rfl⟩) (by intro x _; simp [boolInst, boolT]), fun h => by cases h⟩⟩
+          · exact ⟨(by intro h; cases h), fun hs hc => ⟨not_sound (ga hs hc).1 (Or.inr ⟨_, rfl⟩) (by intro x hx; simpa [boolInst] using hx), fun _ => capsHold_nil w⟩⟩
+          · exact ⟨(by intro h; cases h), fun hs hc => ⟨not_sound (ga hs hc).1 (Or.inr ⟨_, rfl⟩) (by intro x hx; simpa [boolInst] using hx), fun _ => capsHold_nil w⟩⟩
     | neg => exact absurd hop (by decide)
   | .binaryApp op a b, hf, caps, τ, c', h => by
     simp only [InFragmentP, Bool.or_eq_true, Bool.and_eq_true] at hf
